@@ -52,6 +52,33 @@ def main():
     cp = os.path.join(V, "design", "CORRECTIONS.md")
     out += ["", "## 9. Corrections: false alarms, withdrawn fixes and revised decisions", "",
             open(cp).read().strip() if os.path.exists(cp) else "(none recorded)"]
+    # ---- section 10: trusted base as built (from the evidence of the last run of every check)
+    out += ["", "## 10. Trusted base as built (generated)", "",
+            "* **Proof assistant**: Coq 8.16.1 kernel (`coqc`, full `.vo` builds, never `-vos`); `vm_compute` is used for finite sweeps, witnesses and `reflexivity`-closed tie theorems; **no** `native_compute`, no disabled guard/positivity/universe checking, no `-type-in-type`/`-impredicative-set`; no `Axiom`/`Parameter`/`Conjecture`/`Admitted`/`admit`/`Admit Obligations` anywhere (a grep gate over every `.v` file, comments stripped, runs in every check and fails it: `lib/core.py:gate`). The thorough tier additionally re-checks the property module and all its dependencies with `coqchk -o`.",
+            "* **Axioms each property theorem depends on** (`Print Assumptions` under every theorem of `coq/Props/Properties_Cxx.v`, parsed into `evidence/Cxx.json: coverage.theorems[].axioms`): union per property:"]
+    import collections
+    for c in man["checks"]:
+        pid = c["property_id"]
+        try: ev = json.load(open(os.path.join(V, "evidence", pid + ".json")))
+        except Exception: continue
+        ax = collections.Counter()
+        th = ev.get("coverage", {}).get("theorems", [])
+        for t in th:
+            for a in (t.get("axioms") or []): ax[a] += 1
+        closed = len([t for t in th if not (t.get("axioms") or [])])
+        out.append("  * %s: %d of %d statements closed under the global context%s" % (pid, closed, len(th),
+                   ("; others use " + ", ".join("`%s` (%d)" % (a, n) for a, n in sorted(ax.items()))) if ax else ""))
+    out += ["  (all of these are axioms the standard library itself declares: the classical real numbers of `Reals` and functional extensionality; Coquelicot's `is_RInt` statements in C16 bring in the same ones.)",
+            "* **Assumed behaviour of external code** is never an axiom: it is a `Section` `Variable`/`Hypothesis` and therefore a visible premise of the theorem (BLAS reference semantics written in Gallina and tied call-by-call by `t_blascalls.py`; LAPACK contracts — `solveLin_spec` etc.; Gauss' law for closed oriented surfaces; `rnd6`/float32 rounding idempotent and supplied by the harness from libc; the Dirichlet formula as the *definition* of the monomial integral); each check lists its own in `evidence/Cxx.json: assumptions`.",
+            "* **Translators** (regenerate `coq/Gen/*.v` from /repo's current sources before every Coq build; unknown syntax is a reported problem, never a guess; pattern-based and trusted):"]
+    for t in sorted(glob.glob(os.path.join(V, "translators", "t_*.py"))):
+        src = open(t).read(); m = re.search(r"^SERVES = \((.*?)\)", src, re.M)
+        doc = (re.search(r'"""(.*?)"""', src, re.S) or [None, ""])[1].strip().split("\n")[0][:160]
+        out.append("  * `%s` (reported by %s): %s" % (os.path.basename(t), m.group(1).replace('"', "").strip(", ") if m else "every check", doc))
+    ents = re.findall(r"\(\*\s*EXTRACT-([ZF]):\s*(\w+)\s+(\w+)", "\n".join(open(f).read() for f in glob.glob(os.path.join(V, "coq", "*", "*.v"))))
+    out += ["* **Extraction**: `Require Import ExtrOcamlBasic` only (bool, option, unit, list, prod, sumbool → OCaml natives); **no `Extract Constant`, no `Extract Inductive` of our own**; `nat`, `positive`, `N`, `Z`, `Q` stay the extracted inductives. `extract/gen_extract.py` emits one `Extraction \"model.ml\"` command for the %d marked entry points (%s). The float models are functions of an `Ops F` record; `extract/prelude.ml` builds the IEEE-double record from OCaml's `+. -. *. /. sqrt log Float.atan2 Float.abs` and comparisons; `extract/main.ml` is the line-oriented driver (integers, and doubles as C99 hex)." % (len(ents), ", ".join("%s:%s" % (c, k) for k, c, f in sorted(set(ents), key=lambda e: e[1]))),
+            "* **Correspondence**: the C++ harnesses `harness/h_c*.cpp` (compiled against a scratch build of /repo's *working tree*, `-DOPENMEEG_VERIF`, `lib/ombuild.py`), the Python runners and generators (`checks/`, `lib/`), libc number formatting/parsing, OpenBLAS/LAPACKE, libgomp, libmatio/HDF5, the filesystem. Comparison classes are in section 2.4; tolerances other than exact/rounding never gate a `proof`-level claim.",
+            "* **Modelled rather than verified**: everything in `coq/` except `coq/Gen/` is a hand-written Gallina model of the C++ (section 7 says per property which functions are modelled and how each is tied); nothing about the C++ object code itself is proved. What each model leaves out is listed under \"Limits\"/\"Not covered\" in the section 7 notes."]
     out += ["", END, ""]
     open(os.path.join(V, "DESIGN.md"), "w").write(d + "\n" + "\n".join(out))
 if __name__ == "__main__":
